@@ -249,25 +249,32 @@ Qed.
 Lemma addr_pres_isconn s s' q : addr_pres s s' -> isconn s' q = isconn s q.
 Proof. intros [H _]. specialize (H q). unfold isconn. destruct (find_peer s q), (find_peer s' q); tauto. Qed.
 
-Lemma remove_entities_addr l : forall s p s' evs err, remove_entities s p l = (s', evs, err) -> addr_pres s s'.
+Lemma remove_entity_addr s p a s' evs : remove_entity s p a = (s', evs) -> addr_pres s s'.
 Proof.
-  induction l as [|de r IH]; intros s p s' evs err H.
+  intros H. rewrite remove_entity_unfold in H.
+  destruct (find_peer s p) as [pe|] eqn:Ep; [|inversion H; subst; apply addr_pres_refl].
+  destruct (find_rent pe a) as [en|]; [|inversion H; subst; apply addr_pres_refl].
+  cbv zeta in H.
+  set (pe1 := {| p_ski := p_ski pe; p_addr := p_addr pe;
+                 p_ents := filter (fun x => negb (eqb_eaddr (re_addr x) a)) (p_ents pe) |}) in *.
+  pose proof (remove_for_entity_spec (set_peer s pe1) pe1 en) as Hr.
+  destruct (remove_for_entity (set_peer s pe1) pe1 en) as [s2 evs1].
+  destruct Hr as [_ [Hp2 _]].
+  destruct (clean_entity_caches_frame s2 (p_addr pe) a) as [_ Hp3].
+  injection H as H1 H2. subst s' evs.
+  eapply addr_pres_trans; [apply (addr_pres_set_peer s pe pe1); [simpl; rewrite (find_peer_ski _ _ _ Ep); exact Ep | reflexivity]|].
+  apply addr_pres_peers. rewrite Hp3, Hp2. reflexivity.
+Qed.
+
+Lemma remove_unlisted_addr listed es : forall s p s' evs, remove_unlisted s p listed es = (s', evs) -> addr_pres s s'.
+Proof.
+  induction es as [|a r IH]; intros s p s' evs H.
   - simpl in H. inversion H; subst. apply addr_pres_refl.
-  - rewrite remove_entities_cons in H. destruct (find_peer s p) as [pe|] eqn:Ep; [|inversion H; subst; apply addr_pres_refl].
-    destruct (check_entity pe de); cbn [negb] in H; [|inversion H; subst; apply addr_pres_refl].
-    destruct (find_rent pe (de_addr de)) as [en|] eqn:Een; [|exact (IH _ _ _ _ _ H)].
-    cbv zeta in H.
-    set (pe1 := {| p_ski := p_ski pe; p_addr := p_addr pe;
-                   p_ents := filter (fun x => negb (eqb_eaddr (re_addr x) (de_addr de))) (p_ents pe) |}) in *.
-    pose proof (remove_for_entity_spec (set_peer s pe1) pe1 en) as Hr.
-    destruct (remove_for_entity (set_peer s pe1) pe1 en) as [s2 evs1].
-    destruct Hr as [_ [Hp2 _]].
-    destruct (clean_entity_caches_frame s2 en) as [_ Hp3].
-    destruct (remove_entities (clean_entity_caches s2 en) p r) as [[s4 evs2] err2] eqn:Er.
-    injection H as H1 H2 H3. subst s' evs err.
-    eapply addr_pres_trans; [|exact (IH _ _ _ _ _ Er)].
-    eapply addr_pres_trans; [apply (addr_pres_set_peer s pe pe1); [simpl; rewrite (find_peer_ski _ _ _ Ep); exact Ep | reflexivity]|].
-    apply addr_pres_peers. rewrite Hp3, Hp2. reflexivity.
+  - simpl in H. destruct (existsb (eqb_eaddr a) listed || eqb_eaddr a [0%N]); [exact (IH _ _ _ _ H)|].
+    destruct (remove_entity s p a) as [s1 evs1] eqn:E1.
+    destruct (remove_unlisted s1 p listed r) as [s2 evs2] eqn:E2.
+    injection H as H1 H2. subst s' evs.
+    eapply addr_pres_trans; [exact (remove_entity_addr _ _ _ _ _ E1) | exact (IH _ _ _ _ E2)].
 Qed.
 
 Lemma addr_pres_add_entities s p pe m l :
@@ -284,22 +291,84 @@ Proof.
   - simpl in H. inversion H; subst. apply addr_pres_refl.
   - rewrite notify_entries_cons in H. destruct (de_state de) as [[|]|]; [| |inversion H; subst; apply addr_pres_refl].
     + destruct (find_peer s p) as [pe|] eqn:Ep; [|inversion H; subst; apply addr_pres_refl].
-      destruct (all_checked pe (dm_ents m)); cbn [negb] in H.
-      * pose proof (addr_pres_add_entities s p pe m (dm_ents m) Ep) as Ha.
-        destruct (add_entities pe m (dm_ents m)) as [pe1 created]. simpl fst in Ha. cbv zeta in H.
-        destruct (notify_entries (set_peer s pe1) p m r) as [[s2 evs2] err2] eqn:Er.
-        injection H as H1 H2 H3. subst s' evs err.
-        eapply addr_pres_trans; [exact Ha | exact (IH _ _ _ _ _ _ Er)].
-      * cbv zeta in H.
-        match type of H with context [add_entities pe m ?ok] =>
-          pose proof (addr_pres_add_entities s p pe m ok Ep) as Ha; destruct (add_entities pe m ok) as [pe1 cr] end.
-        simpl fst in Ha. inversion H; subst. exact Ha.
-    + destruct (remove_entities s p (dm_ents m)) as [[s1 evs1] err1] eqn:Er1.
-      pose proof (remove_entities_addr _ _ _ _ _ _ Er1) as Ha1.
-      destruct err1; [inversion H; subst; exact Ha1|].
+      destruct (check_entity pe de); cbn [negb] in H; [|inversion H; subst; apply addr_pres_refl].
+      pose proof (addr_pres_add_entities s p pe m [de] Ep) as Ha.
+      destruct (add_entities pe m [de]) as [pe1 created]. simpl fst in Ha.
+      destruct (notify_entries (set_peer s pe1) p m r) as [[s2 evs2] err2] eqn:Er.
+      injection H as H1 H2 H3. subst s' evs err.
+      eapply addr_pres_trans; [exact Ha | exact (IH _ _ _ _ _ _ Er)].
+    + destruct (find_peer s p) as [pe|] eqn:Ep; [|inversion H; subst; apply addr_pres_refl].
+      destruct (check_removed pe de); cbn [negb] in H; [|inversion H; subst; apply addr_pres_refl].
+      destruct (remove_entity s p (de_addr de)) as [s1 evs1] eqn:E1.
       destruct (notify_entries s1 p m r) as [[s2 evs2] err2] eqn:Er.
       injection H as H1 H2 H3. subst s' evs err.
-      eapply addr_pres_trans; [exact Ha1 | exact (IH _ _ _ _ _ _ Er)].
+      eapply addr_pres_trans; [exact (remove_entity_addr _ _ _ _ _ E1) | exact (IH _ _ _ _ _ _ Er)].
+Qed.
+
+(* ---------- a discovery reply: the replying connection gets its announced address, everything
+   else about the connections stays ---------- *)
+Lemma handle_device_added_addr s1 p pe pe1 l0 :
+  find_peer s1 p = Some pe1 -> p_ski pe1 = p -> RegOK s1 -> addr_pres s1 (handle_device_added s1 p pe pe1 l0).
+Proof.
+  intros Ep Hski Hok.
+  destruct (handle_device_added_spec s1 p pe pe1 l0 Ep Hski Hok) as [_ [_ [_ [_ [_ Hfp]]]]].
+  split.
+  - intros q. specialize (Hfp q). destruct (find_peer s1 q), (find_peer _ q); try tauto. destruct Hfp; congruence.
+  - unfold handle_device_added.
+    set (s1a := if reply_completes pe pe1 then _ else s1).
+    assert (H1a : skis s1a = skis s1).
+    { unfold s1a. destruct (reply_completes pe pe1); [|reflexivity].
+      destruct l0; [reflexivity|]. rewrite skis_set_peer. reflexivity. }
+    destruct (match remote_feature pe (nm_addr None) with Some (_, rf) => rf_dev rf | None => None end) as [d0|].
+    + destruct (peer_by_addr s1a d0); exact H1a.
+    + destruct (p_addr pe1) as [d1|]; [|exact H1a]. destruct (peer_by_addr s1a d1); exact H1a.
+Qed.
+
+Lemma reply_step_peers s p m : RegOK s ->
+  fst (step s (DiscoveryReply p m)) = s /\ snd (step s (DiscoveryReply p m)) = [] \/
+  exists pe pe1, find_peer s p = Some pe /\ remote_feature pe (nm_addr None) <> None /\
+    p_ski pe1 = p /\ p_addr pe1 = reply_addr pe m /\
+    addr_pres (set_peer s pe1) (fst (step s (DiscoveryReply p m))).
+Proof.
+  intros Hok. cbn [step]. unfold with_source.
+  destruct (find_peer s p) as [pe|] eqn:Ep; [|left; auto].
+  destruct (remote_feature pe (nm_addr None)) eqn:Esrc; [|left; auto].
+  right.
+  set (pe0 := {| p_ski := p_ski pe; p_addr := match dm_dev m with Some d => Some d | None => p_addr pe end; p_ents := p_ents pe |}).
+  pose proof (RegOK_set_peer_add' s p pe pe0 m (dm_ents m) Ep eq_refl eq_refl Hok) as Hok1.
+  pose proof (add_entities_ski pe0 m (dm_ents m)) as Hski.
+  pose proof (add_entities_addr pe0 m (dm_ents m)) as Haddr.
+  destruct (add_entities pe0 m (dm_ents m)) as [pe1 created]. simpl fst in Hok1, Hski, Haddr.
+  pose proof (find_peer_ski _ _ _ Ep) as Hp.
+  assert (Hski1 : p_ski pe1 = p) by (rewrite Hski; simpl; exact Hp).
+  assert (Ep1 : find_peer (set_peer s pe1) p = Some pe1).
+  { rewrite find_peer_set_peer, Ep, Hski1, N.eqb_refl. reflexivity. }
+  pose proof (handle_device_added_addr (set_peer s pe1) p pe pe1
+                (existsb (fun de => eqb_eaddr (de_addr de) [0%N]) (dm_ents m)) Ep1 Hski1 Hok1) as Ha2.
+  destruct (remove_unlisted _ p (map de_addr (dm_ents m)) (map re_addr (p_ents pe1))) as [s3 evs] eqn:Eu.
+  pose proof (remove_unlisted_addr _ _ _ _ _ _ Eu) as Ha3. cbn [fst].
+  exists pe, pe1. split; [reflexivity|]. split; [rewrite Esrc; discriminate|]. split; [exact Hski1|]. split; [exact Haddr|].
+  eapply addr_pres_trans; eassumption.
+Qed.
+
+Lemma isconn_set_peer s pe q : isconn (set_peer s pe) q = isconn s q.
+Proof.
+  unfold isconn. rewrite find_peer_set_peer. destruct (find_peer s q); [|reflexivity].
+  destruct (N.eqb q (p_ski pe)); reflexivity.
+Qed.
+
+Lemma reply_isconn s p m q : RegOK s -> isconn (fst (step s (DiscoveryReply p m))) q = isconn s q.
+Proof.
+  intros Hok. destruct (reply_step_peers s p m Hok) as [[H _]|[pe [pe1 [_ [_ [_ [_ Ha]]]]]]].
+  - rewrite H. reflexivity.
+  - rewrite (addr_pres_isconn _ _ q Ha). apply isconn_set_peer.
+Qed.
+
+Lemma reply_skis s p m : RegOK s -> skis (fst (step s (DiscoveryReply p m))) = skis s.
+Proof.
+  intros Hok. destruct (reply_step_peers s p m Hok) as [[H _]|[pe [pe1 [_ [_ [_ [_ [_ Ha]]]]]]]].
+  - rewrite H. reflexivity.
+  - rewrite Ha. apply skis_set_peer.
 Qed.
 
 (* ================================================================ what one step writes, and to whom *)
@@ -333,10 +402,7 @@ Proof.
     destruct (disconnect s p) as [s0 evs]. simpl in *. subst evs.
     apply to_connected_events. apply Forall_app. split; [exact Hall | repeat constructor].
   - (* DiscoveryReply *)
-    unfold with_source. destruct (find_peer s p) as [pe|]; [|apply to_connected_nil].
-    destruct (remote_feature pe (nm_addr None)); [|apply to_connected_nil].
-    destruct (add_entities _ m (dm_ents m)) as [pe1 created]. simpl.
-    apply to_connected_events. constructor; [reflexivity | apply added_all_events].
+    apply to_connected_events. exact (proj2 (reply_events s p m Hok)).
   - (* DiscoveryNotify *)
     unfold with_source. destruct (find_peer s p) as [pe|] eqn:Ep; [|apply to_connected_nil].
     destruct (remote_feature pe (nm_addr None)); [|apply to_connected_nil].
@@ -396,7 +462,7 @@ Qed.
 (* ================================================================ operations that leave registries and connections alone *)
 Definition is_frame (o : op) : bool :=
   match o with
-  | AddLocalEntity _ | AddLocalFeature _ _ _ | AddFunction _ _ _ _ _ | DiscoveryReply _ _
+  | AddLocalEntity _ | AddLocalFeature _ _ _ | AddFunction _ _ _ _ _
   | SetData _ _ _ _ | Write _ _ _ _ _ _ _ | ListSubs _ | ListBinds _ | LocalSubscribe _ _ _ | LocalBind _ _ _
   | HasLocalSub _ _ _ | HasLocalBind _ _ _ | ReadData _ _ _ | Resolve _ _ => true
   | _ => false
@@ -410,16 +476,6 @@ Proof.
   - destruct (existsb _ (lents s)); repeat split; reflexivity.
   - destruct (find _ (lents s)); repeat split; reflexivity.
   - repeat split; reflexivity.
-  - (* DiscoveryReply *)
-    unfold with_source. destruct (find_peer s p) as [pe|] eqn:Ep; [|repeat split; reflexivity].
-    destruct (remote_feature pe (nm_addr None)); [|repeat split; reflexivity].
-    set (pe0 := {| p_ski := p_ski pe; p_addr := match dm_dev m with Some d => Some d | None => p_addr pe end; p_ents := p_ents pe |}).
-    pose proof (add_entities_ski pe0 m (dm_ents m)) as Hski.
-    destruct (add_entities pe0 m (dm_ents m)) as [pe1 created]. simpl fst in Hski.
-    assert (G : forall q, isconn (set_peer s pe1) q = isconn s q).
-    { intros q. unfold isconn. rewrite find_peer_set_peer. destruct (find_peer s q); [|reflexivity].
-      destruct (N.eqb q (p_ski pe1)); reflexivity. }
-    destruct (p_addr pe1); repeat split; try reflexivity; try exact G; apply skis_set_peer.
   - destruct (find_lfeat s e (Some f)) as [lf|]; [|repeat split; reflexivity].
     destruct (fn_registered (lf_type lf) fn); repeat split; reflexivity.
   - unfold with_source. destruct (find_peer s p) as [pe|]; [|repeat split; reflexivity].
@@ -563,6 +619,14 @@ Proof.
   destruct (remote_feature pe (nm_addr None)); [discriminate | reflexivity].
 Qed.
 
+Lemma abs_complete p d l : map (complete_entry p d) (abs l) = abs (complete_nm_addr p (Some d) l).
+Proof.
+  unfold abs, complete_nm_addr. rewrite !map_map. apply map_ext. intros x.
+  unfold complete_one, complete_entry, complete_cli, strip. simpl.
+  destruct (N.eqb (e_ski x) p); simpl; [|reflexivity].
+  destruct (eqb_faddr (e_cli x) (nm_addr None)); reflexivity.
+Qed.
+
 Lemma after_delete_eq m p c k out l :
   after_delete m p c k out l =
   filter (del_filter (match find_peer (w m) p with Some pe => default_dev pe (rc_cli c) | None => rc_cli c end) (deleted_on k out)) l.
@@ -626,7 +690,25 @@ Proof.
         -- unfold isconn. simpl. destruct (find_peer s q); [reflexivity|].
            destruct (N.eqb_spec p q); [congruence | reflexivity].
   - (* DiscoveryReply *)
-    rewrite Hsil. split; [apply Inv_frame; auto | reflexivity].
+    rewrite Hsil, app_nil_r, Hw, nm_completion_model, gone_ents_eq.
+    destruct (reply_step_spec s p m0 Hok) as [_ [Hs [Hb _]]].
+    destruct (reply_events s p m0 Hok) as [Hperm _].
+    assert (Hsr : match model_completion s p m0 with Some d => map (complete_entry p d) (sreg m) | None => sreg m end =
+                  abs (completed s p m0 (subs s))).
+    { rewrite (inv_sreg _ _ I). unfold completed. destruct (model_completion s p m0) as [d|]; [|reflexivity]. apply abs_complete. }
+    assert (Hbr : match model_completion s p m0 with Some d => map (complete_entry p d) (breg m) | None => breg m end =
+                  abs (completed s p m0 (binds s))).
+    { rewrite (inv_breg _ _ I). unfold completed. destruct (model_completion s p m0) as [d|]; [|reflexivity]. apply abs_complete. }
+    rewrite Hsr, Hbr. split.
+    + apply Inv_build; [exact I | | |].
+      * rewrite not_of_entity_abs, Hs. reflexivity.
+      * rewrite not_of_entity_abs, Hb. reflexivity.
+      * intros q. rewrite (reply_isconn s p m0 q Hok). apply (inv_conn _ _ I).
+    + replace (same_multiset eqb_obs_event _ _) with true; [reflexivity|]. symmetry.
+      unfold entity_teardown_events. rewrite !of_entity_abs, !map_ev_abs.
+      apply events_multiset.
+      * apply Forall_app. split; apply Forall_forall; intros o Ho; apply in_map_iff in Ho; destruct Ho as [x [<- _]]; reflexivity.
+      * apply Permutation_sym. exact Hperm.
   - (* DiscoveryNotify *)
     rewrite Hsil, app_nil_r.
     assert (H : subs (fst (step s (DiscoveryNotify p ctr ack m0))) = drop p (gone_of (snd (step s (DiscoveryNotify p ctr ack m0)))) (subs s) /\
